@@ -353,6 +353,9 @@ func classify(c Case) class {
 			if len(res.Data) > 4096 {
 				cl.labels["read>4096"] = true
 			}
+			if len(res.Data) > 65536 {
+				cl.labels["read>65536"] = true
+			}
 		case models.FsDelete:
 			ino, _ := ref.Lookup(op.Dir, op.Name)
 			affected[ino] = true
@@ -414,7 +417,9 @@ func classify(c Case) class {
 
 var dirPool = []string{"d", "e", "x.tmp", "ü", "dir-2"}
 var namePool = []string{"a", "b", "c", "x", "a.b", "a-b", "ü", "x.tmp", "a.tmp"}
-var bigSizes = []int{0, 1, 4095, 4096, 4097, 8192, 8193, 12288, 20000}
+// bigSizes straddles the page size and the 64 KiB / 128 KiB marks at which an implementation that
+// reads or writes in chunks would switch to a second chunk (seeded change C12-2).
+var bigSizes = []int{0, 1, 4095, 4096, 4097, 8192, 8193, 12288, 20000, 65535, 65536, 65537, 70000, 131072, 131073, 200001}
 
 // raw is the randomness of one step of the history; build interprets it
 // against the model state, so that deleting or simplifying steps (shrinking)
@@ -476,7 +481,7 @@ func readOf(r raw, size uint64) (off, length uint64) {
 			length = rest - 1
 		}
 	case 5:
-		length = uint64([]int{4095, 4096, 4097, 8192, 70000}[r.F%5])
+		length = uint64([]int{4095, 4096, 4097, 8192, 65536, 65537, 70000, 131073, 1 << 21}[r.F%9])
 	default:
 		length = uint64(r.F) % (size + 11)
 	}
